@@ -8,6 +8,7 @@ import properties
 
 HERE = os.path.dirname(os.path.abspath(__file__))
 VERIF = os.path.dirname(HERE)
+OUT = os.environ.get("OHSA_OUT", VERIF)
 
 
 def known_findings():
@@ -46,7 +47,7 @@ def select_entries(prop, res):
     return sel
 
 
-def decide(prop, tier, res, t0):
+def decide(prop, tier, res, t0, extra=None):
     spec = properties.PROPS[prop]
     errors = []
     # anchors must resolve
@@ -91,6 +92,9 @@ def decide(prop, tier, res, t0):
             rule_viol.append(dict(v, rule=rname))
     floor_msgs = floors(prop, res, sel, obligations)
     errors.extend(floor_msgs)
+    if extra:
+        for m in extra.get("errors", []):
+            errors.append(m)
 
     known = known_findings()
     # failures inside an entry point that called something the analysis has no model for, and spec
@@ -136,7 +140,7 @@ def decide(prop, tier, res, t0):
     for k, text in sorted(known_hit.items()):
         print(f"KNOWN-FINDING: property={prop} {text} [{k[:200]}]")
     if viol_keys:
-        fd = os.path.join(VERIF, "findings", prop)
+        fd = os.path.join(OUT, "findings", prop)
         os.makedirs(fd, exist_ok=True)
         for k, o in sorted(viol_keys.items()):
             path = os.path.join(fd, short_key(k) + ".json")
@@ -148,7 +152,7 @@ def decide(prop, tier, res, t0):
             if o.get("detail"):
                 print(f"  {o['detail'][:500]}")
         status = 1      # a violation was found (analysis errors, if any, are printed as well)
-    write_evidence(prop, tier, res, sel, obligations, rule_inst, rule_viol, known_hit, viol_keys, errors, wall)
+    write_evidence(prop, tier, res, sel, obligations, rule_inst, rule_viol, known_hit, viol_keys, errors, wall, extra)
     n_dis = sum(1 for o in obligations if o["status"] in ("discharged", "assumed", "requires"))
     print(f"{prop}: {len(sel)} entry points, {len(obligations)} obligations ({n_dis} discharged/assumed, "
           f"{len(failed)} failed: {len(known_hit)} known, {len(viol_keys)} new), {len(rule_inst)} rule instances, "
@@ -178,7 +182,7 @@ def floors(prop, res, sel, obligations):
     return msgs
 
 
-def write_evidence(prop, tier, res, sel, obligations, rule_inst, rule_viol, known_hit, viol_keys, errors, wall):
+def write_evidence(prop, tier, res, sel, obligations, rule_inst, rule_viol, known_hit, viol_keys, errors, wall, extra=None):
     spec = properties.PROPS[prop]
     import rules_terms
     import contracts
@@ -262,14 +266,16 @@ def write_evidence(prop, tier, res, sel, obligations, rule_inst, rule_viol, know
         "exhaustive": False,
         "tree": res.get("tree"),
     }
+    if extra:
+        cov["sensitivity_selftest"] = extra.get("summary", {})
     level = spec["level"]
     if n_failed and level == "proof":
         level = "other"     # a proof-level claim needs every obligation discharged
     ev = {"property_id": prop, "tier": tier, "seed": int(os.environ.get("VERIF_SEED", "0") or 0),
           "level": level, "coverage": cov, "assumptions": assumptions, "wall_s": round(wall, 3),
           "violations": len(viol_keys)}
-    os.makedirs(os.path.join(VERIF, "evidence"), exist_ok=True)
-    with open(os.path.join(VERIF, "evidence", prop + ".json"), "w") as fh:
+    os.makedirs(os.path.join(OUT, "evidence"), exist_ok=True)
+    with open(os.path.join(OUT, "evidence", prop + ".json"), "w") as fh:
         json.dump(ev, fh, indent=1)
 
 
